@@ -306,6 +306,8 @@ def main(argv=None):
         print(f"HARNESS-ERROR property={c.prop} unexplained divergence between processes: {c.unexplained[0]}")
         return 2
     if c.violations:
+        # deterministic violations first: their replay files reproduce with certainty
+        c.violations.sort(key=lambda vp: vp[0]["oracle"] == "H")
         for v, path in c.violations:
             print(f"VIOLATION property={v['property']} replay={path}")
             print(f"  oracle={v['oracle']} kind={v['kind']} key={v['key']} step={v['step']}: {v['detail'][:500]}")
